@@ -32,7 +32,12 @@ ASSUMPTIONS = ["rounding-level equivalence: threshold 2e-8 x system scale for <=
 PROBES = ["observer_on_unsynchronized_state", "sync_twice", "sync_thrice", "copy_observer", "archive_observer", "bitwise_clause_checked", "safe_vs_unsafe_checked", "idempotence_checked"]
 
 INTEGS = ["whfast", "whfast", "whfast", "saba", "saba", "mercurius", "eos"]
-OBS = ["sync", "sync2", "sync3", "energy", "angmom", "orbits", "copy", "copy_nosync", "bytes", "bytes_nosync", "equal", "snapshot", "snapshot_nosync"]
+OBS = ["sync", "sync2", "sync3", "energy", "angmom", "orbits", "copy", "copy_nosync", "bytes", "bytes_nosync", "equal", "snapshot", "snapshot_nosync",
+       "integrate_now", "integrate_now", "integrate_short", "integrate_span"]
+# integrate_now   : integrate(sim.t) - a pure observer: the call returns at once and only synchronises
+# integrate_short : integrate(t + f*dt, exact_finish_time=1), f < 1 - entered unsynchronised, the first step of the call is also its last
+# integrate_span  : integrate(t + k*dt + f*dt, exact_finish_time=1)
+# the last two change the time grid and are therefore replayed in the unobserved and in the safe-mode run as well
 
 
 def generate(rng, tier, index):
@@ -52,7 +57,7 @@ def generate(rng, tier, index):
     e = rng.derive("events")
     events = []
     for i in range(e.randint(1, 8)):
-        events.append(dict(after=e.randint(1, 40), kind=e.choice(OBS)))
+        events.append(dict(after=e.randint(1, 40) if (i or e.chance(0.8)) else 0, kind=e.choice(OBS), f=e.choice([0.37, 0.5, 0.93]), k=e.randint(1, 5)))   # the first observer may arrive before any step
     return dict(config=cfg, events=events, tail=e.randint(0, 30))
 
 
@@ -124,14 +129,46 @@ def execute(case, ctx):
                 d = max(d, abs(p[k] - q[k]) / vscale)
         return d, scale
 
+    dtu = abs(cfg["dt"])
+    sg = 1.0 if cfg["dt"] > 0 else -1.0
+
+    # shortened steps change dt: symplectic correctors (WHFast corrector / corrector2, SABA CM/CL types) and a kept unsynchronised
+    # state (keep_unsynchronized=1) both presuppose a constant step, so these two event kinds are only generated for plain configurations
+    plain = (not keep and not cfg["opts"].get("ri_whfast.corrector") and not cfg["opts"].get("ri_whfast.corrector2")
+             and cfg["opts"].get("ri_whfast.kernel", 0) == 0 and cfg["opts"].get("ri_saba.type", 0) < 0x100)
+
+    def stepping(s, ev):
+        """the part of an event that changes the time grid (replayed identically in all runs)"""
+        if not plain:
+            return
+        if ev["kind"] == "integrate_short":
+            s.integrate(s.t + sg * ev.get("f", 0.5) * dtu, exact_finish_time=1)
+        elif ev["kind"] == "integrate_span":
+            s.integrate(s.t + sg * (ev.get("k", 2) + ev.get("f", 0.5)) * dtu, exact_finish_time=1)
+
     try:
         with rb.quiet():
             U = simgen.build(rebound, rb, cfg)
             for i, ev in enumerate(case["events"]):
                 ctx.op(i)
-                U.steps(ev["after"])
+                if ev["after"]:
+                    U.steps(ev["after"])
                 total += ev["after"]
                 k = ev["kind"]
+                if k == "integrate_now":
+                    kinds.append(k)
+                    if rb.getf(U, syncflag) == 0:
+                        probe("observer_on_unsynchronized_state")
+                        nontrivial = True
+                    U.integrate(U.t, exact_finish_time=int(U.exact_finish_time))
+                    continue
+                if k in ("integrate_short", "integrate_span"):
+                    kinds.append(k)
+                    if rb.getf(U, syncflag) == 0:
+                        probe("observer_on_unsynchronized_state")
+                        nontrivial = True
+                    stepping(U, ev)
+                    continue
                 kinds.append(k)
                 uns = rb.getf(U, syncflag) == 0
                 if uns:
@@ -183,14 +220,20 @@ def execute(case, ctx):
             # ---- unobserved run of the same seed ---------------------------------------------------------
             ctx.op(101)
             Ref = simgen.build(rebound, rb, cfg)
-            Ref.steps(total)
+            for ev in case["events"]:
+                if ev["after"]:
+                    Ref.steps(ev["after"])
+                stepping(Ref, ev)
+            Ref.steps(case["tail"])
             if keep:
                 # with keep_unsynchronized=1 the trajectory lives in p_jh; the particle array holds whatever the last synchronize
                 # produced. Synchronise both (does not touch p_jh) and then everything must agree bit for bit.
                 U.synchronize()
                 Ref.synchronize()
                 probe("bitwise_clause_checked")
-                d = rb.S_diff(rb.S(U, drop=WT), rb.S(Ref, drop=WT))
+                # integrate() zeroes dt_last_done on entry (not read by WHFast / SABA): not part of the trajectory
+                dr = WT + ((145,) if "integrate_now" in kinds else ())
+                d = rb.S_diff(rb.S(U, drop=dr), rb.S(Ref, drop=dr))
                 if d:
                     viol("bitwise", "observer calls changed the trajectory although keep_unsynchronized=1", "after %d steps with events %s: fields %s" % (total, kinds, rb.describe_fields(d)),
                          key="bitwise:%s" % integ)
@@ -215,7 +258,11 @@ def execute(case, ctx):
                 cfgS["opts"]["ri_%s.safe_mode" % integ] = 1
                 cfgS["opts"].pop("ri_%s.keep_unsynchronized" % integ, None)
                 Sf = simgen.build(rebound, rb, cfgS)
-                Sf.steps(total)
+                for ev in case["events"]:
+                    if ev["after"]:
+                        Sf.steps(ev["after"])
+                    stepping(Sf, ev)
+                Sf.steps(case["tail"])
                 Sf.synchronize()
                 probe("safe_vs_unsafe_checked")
                 d, scale = maxdiff(Ref, Sf)
